@@ -330,49 +330,56 @@ def fn_to_sympy(
 
 
 def _handle_fn_body(body: list[ast.stmt], ctx: Context) -> sympy.Expr | None:
-    pieces = []
-    remaining_body = list(body)
+    expr = _handle_stmts(list(body), ctx)
+    if expr is _NO_RETURN:
+        msg = "No return value found in function body"
+        raise ValueError(msg)
+    return expr
 
-    while remaining_body:
-        node = remaining_body.pop(0)
 
+# Marker for a path through the function body that ends without a return statement
+_NO_RETURN: Any = object()
+
+
+def _handle_stmts(stmts: list[ast.stmt], ctx: Context) -> sympy.Expr | None:
+    """Translate a sequence of statements into the value the function returns.
+
+    Every branch of an ``if`` is translated together with the statements that
+    follow the ``if``, on its own copy of the symbol table, such that assignments
+    inside one branch cannot leak into the other one.
+    """
+    for idx, node in enumerate(stmts):
         if isinstance(node, ast.If):
+            rest = stmts[idx + 1 :]
             condition = _handle_expr(node.test, ctx)
-            if_expr = _handle_fn_body(node.body, ctx)
-            pieces.append((if_expr, condition))
+            if condition is None:
+                return None
+            if_expr = _handle_stmts(
+                [*node.body, *rest], ctx.updated(symbols=dict(ctx.symbols))
+            )
+            else_expr = _handle_stmts(
+                [*node.orelse, *rest], ctx.updated(symbols=dict(ctx.symbols))
+            )
+            if if_expr is None or else_expr is None:
+                return None
+            if if_expr is _NO_RETURN and else_expr is _NO_RETURN:
+                return _NO_RETURN
+            if if_expr is _NO_RETURN:
+                return sympy.Piecewise((else_expr, sympy.Not(condition)))
+            if else_expr is _NO_RETURN:
+                return sympy.Piecewise((if_expr, condition))
+            if isinstance(else_expr, sympy.Piecewise):
+                # elif chains and consecutive ifs: keep a flat first-true-wins list
+                return sympy.Piecewise((if_expr, condition), *else_expr.args)
+            return sympy.Piecewise((if_expr, condition), (else_expr, True))
 
-            # If there's an else clause
-            if node.orelse:
-                # Check if it's an elif (an If node in orelse)
-                if len(node.orelse) == 1 and isinstance(node.orelse[0], ast.If):
-                    # Push the elif back to the beginning of remaining_body to process next
-                    remaining_body.insert(0, node.orelse[0])
-                else:
-                    # It's a regular else
-                    else_expr = _handle_fn_body(node.orelse, ctx)  # FIXME: copy here
-                    pieces.append((else_expr, True))
-                    break  # We're done with this chain
-
-            elif not remaining_body and any(
-                isinstance(n, ast.Return) for n in body[body.index(node) + 1 :]
-            ):
-                else_expr = _handle_fn_body(
-                    body[body.index(node) + 1 :], ctx
-                )  # FIXME: copy here
-                pieces.append((else_expr, True))
-
-        elif isinstance(node, ast.Return):
+        if isinstance(node, ast.Return):
             if (value := node.value) is None:
                 msg = "Return value cannot be None"
                 raise ValueError(msg)
+            return _handle_expr(value, ctx)
 
-            expr = _handle_expr(value, ctx)
-            if not pieces:
-                return expr
-            pieces.append((expr, True))
-            break
-
-        elif isinstance(node, ast.Assign):
+        if isinstance(node, ast.Assign):
             # Handle tuple assignments like c, d = a, b
             if isinstance(node.targets[0], ast.Tuple):
                 # Handle tuple unpacking
@@ -381,20 +388,28 @@ def _handle_fn_body(body: list[ast.stmt], ctx: Context) -> sympy.Expr | None:
                 if isinstance(node.value, ast.Tuple):
                     # Direct unpacking like c, d = a, b
                     value_elements = node.value.elts
+                    values = []
                     for target, value_expr in zip(
                         target_elements, value_elements, strict=True
                     ):
-                        if isinstance(target, ast.Name):
-                            expr = _handle_expr(value_expr, ctx)
-                            if expr is None:
-                                return None
-                            ctx.symbols[target.id] = expr
+                        if not isinstance(target, ast.Name):
+                            msg = "Only variable names can be unpacked into"
+                            raise TypeError(msg)
+                        expr = _handle_expr(value_expr, ctx)
+                        if expr is None:
+                            return None
+                        values.append((target.id, expr))
+                    # all values are evaluated before any name is bound
+                    for target_name, expr in values:
+                        ctx.symbols[target_name] = expr
                 else:
-                    # Handle potential iterable unpacking
-                    value = _handle_expr(node.value, ctx)
+                    msg = "Only unpacking of tuple literals is supported"
+                    raise NotImplementedError(msg)
             else:
                 # Regular single assignment
-                if not isinstance(target := node.targets[0], ast.Name):
+                if len(node.targets) != 1 or not isinstance(
+                    target := node.targets[0], ast.Name
+                ):
                     msg = "Only single variable assignments are supported"
                     raise TypeError(msg)
                 target_name = target.id
@@ -423,21 +438,11 @@ def _handle_fn_body(body: list[ast.stmt], ctx: Context) -> sympy.Expr | None:
                     ctx.modules[name] = el
                 else:
                     _LOGGER.debug("Skipping import %s", node)
+
         else:
             _LOGGER.debug("Skipping node of type %s", type(node))
 
-    # If we have pieces to combine into a Piecewise
-    if pieces:
-        return sympy.Piecewise(*pieces)
-
-    # If no return was found but we have assignments, return the last assigned variable
-    for node in reversed(body):
-        if isinstance(node, ast.Assign) and isinstance(node.targets[0], ast.Name):
-            target_name = node.targets[0].id
-            return ctx.symbols[target_name]
-
-    msg = "No return value found in function body"
-    raise ValueError(msg)
+    return _NO_RETURN
 
 
 def _handle_expr(node: ast.expr, ctx: Context) -> sympy.Expr | None:
